@@ -616,7 +616,7 @@ impl Drop for LocalParentGuard {
         #[cfg(feature = "enable")]
         if let Some(inner) = self.inner.take() {
             let (spans, token) = inner.collector.collect_spans_and_token();
-            debug_assert!(token.is_some());
+            // `token` is `None` if the scope could not be registered (nesting limit exceeded).
             if let Some(token) = token {
                 inner
                     .collect
